@@ -168,7 +168,7 @@ def gen_ops(rng, n):
     ops = ['feature']
     if _first_call[0]:
         # the exhaustive part once per process (the search-on-break loop re-draws the random part only)
-        ops += exhaustive_ops(rng, 1 if n < 50000 else 4)
+        ops += exhaustive_ops(rng, 3 if n < 100000 else 12)
         _first_call[0] = False
     ops += random_ops(rng, n)
     return ops
@@ -411,7 +411,7 @@ if __name__ == '__main__':
                        'Driver/C14.lean'],
         harness_name='c14', harness_sources=[os.path.join(C.VERIF, 'harness', 'c14.cpp')],
         gen_ops=gen_ops, monitor=monitor, nontrivial=nontrivial,
-        n_quick=8000, n_thorough=150000,
+        n_quick=20000, n_thorough=300000,
         trusted_base=[
             'Lean 4.33 kernel (+ Mathlib tactics in proof files; axioms: propext, Classical.choice, Quot.sound)',
             'gen/cxxparse.py + gen/gen_c14.py (translator: triangle tests, scatter targets, index offsets, loop '
